@@ -73,6 +73,7 @@ theorem Stage.filter_spec (st st' : Stage D E) (x o : Bytes) (hp : isPlain st = 
   | decode d => simp [isPlain] at hp
   | encode e => simp [isPlain] at hp
 
+omit hl in
 /-- a failing plain stage is an html stage (and it keeps its state: `doFilter` puts the same stage back) -/
 theorem Stage.filter_none (st : Stage D E) (x : Bytes) (hp : isPlain st = true)
     (h : st.filter tk ev codec x = none) : isHtml st = true := by
@@ -82,6 +83,7 @@ theorem Stage.filter_none (st : Stage D E) (x : Bytes) (hp : isPlain st = true)
   | decode d => simp [isPlain] at hp
   | encode e => simp [isPlain] at hp
 
+omit hl in
 theorem Stage.end_spec (st st' : Stage D E) (o : Bytes) (hp : isPlain st = true) (hok : StOK tk st)
     (h : st.end codec = some (st', o)) :
     isPlain st' = true ∧ isHtml st' = isHtml st ∧ StOK tk st' ∧ stageRel st' = stageRel st ∧
@@ -104,6 +106,7 @@ theorem Stage.end_spec (st st' : Stage D E) (o : Bytes) (hp : isPlain st = true)
   | decode d => simp [isPlain] at hp
   | encode e => simp [isPlain] at hp
 
+omit hl in
 theorem Stage.end_some (st : Stage D E) (hp : isPlain st = true) : ∃ r, st.end codec = some r := by
   cases st with
   | html s => exact ⟨_, rfl⟩
@@ -180,7 +183,7 @@ theorem doFilter_ok : ∀ (items items' : List (Stage D E)) (x out c e : Bytes),
         subst h2'
         have ho : o = [] := by simpa using hemp
         subst ho
-        refine ⟨?_, ?_, by simp [f4], by simp [f2], ⟨m, by simpa using hstep, by simpa using h2⟩⟩
+        refine ⟨?_, ?_, by simp [f4], by simp [f2], ⟨m, by rw [f4]; simpa using hstep, by simpa using h2⟩⟩
         · intro s hs; simp at hs; rcases hs with rfl | hs
           · exact f1
           · exact hp s (by simp [hs])
@@ -212,7 +215,7 @@ theorem doFilter_text_ok : ∀ (items : List (Stage D E)) (x : Bytes),
     rw [doFilter]
     cases hf : st.filter tk ev codec x with
     | none =>
-      have := Stage.filter_none hl ev codec st x (hp st (by simp)) hf
+      have := Stage.filter_none (tk := tk) ev codec st x (hp st (by simp)) hf
       simp [htmlCount, List.filter, this] at hc
     | some r =>
       obtain ⟨st', o⟩ := r
